@@ -11,7 +11,9 @@ import (
 // wrapper, WriteCodeToFile) as one OS process per world; the outcome is the
 // sandbox tree.
 
-var targetDir = map[string]string{"lua": "out/lua", "rust": "out/rust", "go": "out/go", "java": "out/java", "python": "out/py", "cpp": "out/cpp"}
+var targetDir = map[string]string{"lua": "out/lua", "rust": "out/rust", "go": "out/go", "java": "out/java", "python": "out/py", "cpp": "out/cpp",
+	// pseudo target of the shared-directory layout: every requested target writes into out/all
+	"shared": "out/all"}
 
 func compileArgv(targets []string, long bool, subcommand bool, abs bool) []string {
 	var argv []string
@@ -159,7 +161,7 @@ func cliDiff(a, b *CLIOutcome) (targets []string, diffs map[string][]string) {
 	if a.Exit != b.Exit {
 		return []string{"*"}, diffs
 	}
-	for _, t := range AllTargets {
+	for _, t := range append(append([]string{}, AllTargets...), "shared") {
 		sa, sb := a.subtree(targetDir[t]), b.subtree(targetDir[t])
 		names := map[string]bool{}
 		for n := range sa {
@@ -308,6 +310,25 @@ func c13CLI(c *Ctx, n int) error {
 		}
 		text := prog.Render()
 		argv := compileArgv(targets, r.Chance(1, 2), r.Chance(1, 2), r.Chance(1, 3))
+		if i%6 == 4 {
+			// "the same flags" may well name one directory for several targets:
+			// 2-5 targets (without c++, whose year line is the listed known
+			// finding) write into out/all
+			var ts []string
+			for _, t := range randomHistorySorted(r) {
+				if t != "cpp" {
+					ts = append(ts, t)
+				}
+			}
+			for _, t := range []string{"go", "rust", "lua"} {
+				if len(ts) < 2 && !contains(ts, t) {
+					ts = append(ts, t)
+				}
+			}
+			targets = ts
+			argv = compileArgvDirs(targets, layoutDirs("shared-root", targets), r.Chance(1, 2), r.Chance(1, 2), r.Chance(1, 3))
+			c.ev.Fire("several_targets_share_one_output_directory", 1)
+		}
 		mkWorld := func(cfg SchedConfig) *CLIWorld {
 			return &CLIWorld{Argv: argv, Disk0: []DiskEntry{{Path: "in.dsl", Kind: "file", Data: []byte(text)}}, Sched: cfg}
 		}
@@ -604,4 +625,13 @@ func clipList(xs []string, n int) []string {
 		out[i] = clip(x, 160)
 	}
 	return out
+}
+
+func contains(xs []string, x string) bool {
+	for _, y := range xs {
+		if y == x {
+			return true
+		}
+	}
+	return false
 }
